@@ -42,8 +42,29 @@ var (
 	errT   = reflect.TypeOf((*error)(nil)).Elem()
 )
 
-var errInjected = errors.New("INJECTED constructor failure")
-var errFill = errors.New("INJECTED config fill failure")
+var errInjected error = errors.New("INJECTED constructor failure")
+var errFill error = errors.New("INJECTED config fill failure")
+
+// errors of other kinds than a pointer: a struct value (like context.DeadlineExceeded) and a string type
+type structErr struct{ msg string }
+
+func (e structErr) Error() string { return e.msg }
+
+type stringErr string
+
+func (e stringErr) Error() string { return string(e) }
+
+func setErrKind(kind string) {
+	const a, b = "INJECTED constructor failure", "INJECTED config fill failure"
+	switch kind {
+	case "struct":
+		errInjected, errFill = structErr{a}, structErr{b}
+	case "string":
+		errInjected, errFill = stringErr(a), stringErr(b)
+	default:
+		errInjected, errFill = errors.New(a), errors.New(b)
+	}
+}
 
 type Shape struct {
 	Factory  bool   `json:"factory"`   // registered constructor returns a factory
@@ -55,6 +76,7 @@ type Shape struct {
 	Request  string `json:"request"`   // new | factory | factory-err
 	Settings string `json:"settings"`  // none | one | fail | fail2 (fill fails on its 2nd call)
 	FailAt   string `json:"fail_at"`   // none | outer | inner1 | inner2
+	ErrKind  string `json:"err_kind,omitempty"` // dynamic type of the injected errors: "" (pointer) | struct | string
 }
 
 func (s Shape) Name() string {
@@ -277,6 +299,7 @@ func runShape(s Shape) (obs string, verr error) {
 			verr = fmt.Errorf("HARNESS-PANIC: %v", r)
 		}
 	}()
+	setErrKind(s.ErrKind)
 	w := &world{s: s}
 	reg := plugin.NewRegistry()
 	ctor, def := w.build()
@@ -534,6 +557,12 @@ func shapes() []Shape {
 									}
 									for _, fa := range fails {
 										out = append(out, Shape{Factory: factory, IfaceRes: iface, Err: e, OuterErr: oe, Config: cfg, Default: d, Request: req, Settings: set, FailAt: fa})
+										if fa != "none" || set == "fail" || set == "fail2" {
+											// the same failure carried by an error value that is not a pointer
+											for _, ek := range []string{"struct", "string"} {
+												out = append(out, Shape{Factory: factory, IfaceRes: iface, Err: e, OuterErr: oe, Config: cfg, Default: d, Request: req, Settings: set, FailAt: fa, ErrKind: ek})
+											}
+										}
 									}
 								}
 							}
